@@ -203,6 +203,11 @@ class kLeastAbsErrorsCycles(walkmodel.AbstractWalkModelDiGraph):
         self.subset_constraints_coverage = subset_constraints_coverage
         
         self.flow_attr = flow_attr
+        # The errors |flow - load| are integers only if the weights and the flow values are
+        self._integral_flow_values = all(
+            float(data[self.flow_attr]).is_integer() for u, v, data in self.G.edges(data=True)
+            if (u, v) not in self.edges_to_ignore and self.flow_attr in data
+        )
         max_flow_value = self.G.get_max_flow_value_and_check_non_negative_flow(
             flow_attr=self.flow_attr, edges_to_ignore=self.edges_to_ignore
         )
@@ -285,7 +290,7 @@ class kLeastAbsErrorsCycles(walkmodel.AbstractWalkModelDiGraph):
             name_prefix="ee",
             lb=0,
             ub=self.w_max,
-            var_type="integer" if self.weight_type == int else "continuous",
+            var_type="integer" if self.weight_type == int and self._integral_flow_values else "continuous",
         )
 
         for u, v, data in self.G.edges(data=True):
@@ -415,7 +420,7 @@ class kLeastAbsErrorsCycles(walkmodel.AbstractWalkModelDiGraph):
         ]
         self.edge_errors_sol = self.solver.get_values(self.edge_errors_vars)
         for (u,v) in self.edge_indexes_basic:
-            self.edge_errors_sol[(u,v)] = round(self.edge_errors_sol[(u,v)]) if self.weight_type == int else float(self.edge_errors_sol[(u,v)])
+            self.edge_errors_sol[(u,v)] = round(self.edge_errors_sol[(u,v)]) if self.weight_type == int and self._integral_flow_values else float(self.edge_errors_sol[(u,v)])
 
         if self.flow_attr_origin == "edge":
             self._solution = {
